@@ -17,8 +17,10 @@
     The database is the content of sqlite_master (type, name, tbl_name) plus a
     row count per table.  A statement either succeeds (new database) or fails
     and leaves the database as it was (SQLite statements are atomic).  On top
-    of the failures the abstract engine predicts, a fault stream can make any
-    write fail (I/O error, lock, ...): [true] = this ExecContext fails. *)
+    of the failures the abstract engine predicts, two fault streams can make
+    any ExecContext fail (I/O error, lock, read-only connection ...): [fs] is
+    consumed by the statements of the bodies, [rs] by the four statements of
+    every RestoreFunc; [true] = this ExecContext fails. *)
 From Coq Require Import List NArith Bool Arith.
 From Atlas Require Import Base.Bytes.
 Import ListNotations.
